@@ -4,6 +4,7 @@
 import StathamModel.Orderer
 import StathamModel.Lemmas.ListAux
 import StathamModel.Lemmas.OrdererComplete
+import StathamModel.Lemmas.TreeGraph
 import StathamModel.Tie
 namespace Statham.C11
 open Statham
@@ -242,5 +243,20 @@ def mutualCycle : ClassGraph :=
 /-- a mutual cycle below an acyclic root is refused, not partially ordered -/
 example : (match ordererGraph mutualCycle with | .error .unresolvable => true | _ => false) = true := by
   decide +kernel
+
+/-- **declared after every object class below it**, stated on the tree itself rather than through the model's computed
+    `descendantsOf` (whose search fuel is shown to suffice, `descendantsOf_direct`): if the orderer answers `order`, the class
+    found under the `i`-th name has every object class among its descendants — through any keyword position, at any depth —
+    declared strictly earlier -/
+theorem C11_declared_after_dependencies (els : List Elem) (order : List String) (h : ordererTree els = .ok order)
+    (i : Nat) (n : String) (hi : order[i]? = some n) (c : Elem)
+    (hc : (objectClasses els).find? (fun c => objName c.cls == n) = some c)
+    (d : Elem) (hd : d ∈ descendants c) (ho : isObjectClass d.cls = true) :
+    objName d.cls ∈ order.take i := by
+  refine ((C11_order_sound (treeGraph els) order h).2 i n hi).2 (objName d.cls)
+    (descendantsOf_direct _ (treeGraph_bounded els) n _ ?_)
+  simp only [treeGraph, hc]
+  rw [mem_removeDups]
+  exact List.mem_map.mpr ⟨d, List.mem_filter.mpr ⟨hd, ho⟩, rfl⟩
 
 end Statham.C11
